@@ -28,6 +28,46 @@ TIERS = {
 
 def gen_large(rng):
     """Sizes well beyond the small cases: deep trees, many Fenwick levels, long histories; audited sparsely."""
+    y = rng.random()
+    if y < 0.15:
+        # an adversary against the balancing rule: one growing component and a stream of fresh small ones (singleton, pair or
+        # triple), each glued on through a fixed choice of arguments (the newest / the oldest / a middle member of the big
+        # component - usually not its representative - and the first or last member of the small one, in either order), with
+        # no read in between.  If balancing ever looks at the wrong element the forest degenerates into a chain thousands deep
+        grp = rng.choice([1, 2, 2, 3])
+        pick_big = rng.choice(["newest", "newest", "oldest", "middle"])
+        pick_small = rng.choice(["first", "last"])
+        swap = rng.random() < 0.5
+        small_rev = rng.random() < 0.5
+        n = rng.choice([2400, 3000, 4500])
+        ops, big = [], [0]
+        i = 1
+        while i + grp <= n:
+            small = list(range(i, i + grp))
+            for a, b in zip(small, small[1:]):
+                ops.append(["union", b, a] if small_rev else ["union", a, b])
+            x = {"newest": big[-1], "oldest": big[0], "middle": big[len(big) // 2]}[pick_big]
+            z = small[0] if pick_small == "first" else small[-1]
+            ops.append(["union", z, x] if swap else ["union", x, z])
+            big.extend(small)
+            i += grp
+        ops += [["find", big[-1]], ["find", 0], ["connected", 0, big[-1]], ["component_count"], ["find", big[len(big) // 2]]]
+        return {"kind": "uf", "n": n, "ops": ops, "sparse_audit": True}
+    if y < 0.3:
+        # bursts of updates on many distinct indices with no query in between (a write buffer, if there is one, fills and
+        # has to be folded in mid-burst), then queries; a few rounds
+        n = rng.choice([65, 100, 129, 300, 1000])
+        init = [rng.randrange(-9, 10) for _ in range(n)]
+        ops = []
+        for _ in range(rng.randrange(1, 4)):
+            idxs = rng.sample(range(n), min(n, rng.choice([64, 65, 66, 70, 130, 300])))
+            for i in idxs:
+                ops.append(["update", i, rng.randrange(-9, 10)])
+            for _ in range(rng.randrange(1, 6)):
+                ops.append(["prefix", rng.choice([n - 1, rng.randrange(n), idxs[-1], idxs[min(64, len(idxs) - 1)]])])
+            a, b = rng.randrange(n), rng.randrange(n)
+            ops.append(["range_sum", min(a, b), max(a, b)])
+        return {"kind": "fw", "init": init, "ops": ops, "sparse_audit": True}
     if rng.random() < 0.15:
         # a long chain of unions without a single read in between, then reads: union by rank must keep the forest shallow
         n = rng.choice([1200, 2500, 4000])
